@@ -1,7 +1,7 @@
 (* C11 — proofs about the model: re-exports the parts; short proofs of statements of Properties.v. *)
 From Coq Require Import List NArith Bool Lia.
 From V.C11 Require Import Model.
-From V.C11 Require Export PBase PAlt PInv PIso PLedger PTimer.
+From V.C11 Require Export PBase PAlt PInv PIso PLedger PTimer PSend.
 Import ListNotations.
 Open Scope N_scope.
 
@@ -37,7 +37,7 @@ Lemma C11_isolation_pf :
     reachable c s -> step c s o = Some (s', ev, cl) -> iso s s' (op_peer o) ev cl.
 Proof.
 
-  intros c s o s' ev cl R S. destruct (reachable_inv c s R) as [I T]. eapply step_iso; eauto.
+  intros c s o s' ev cl R S. destruct (reachable_inv3 c s R) as (I & T & K). eapply step_iso; eauto.
 Qed.
 
 Lemma C11_runs_are_reachable_pf :
